@@ -64,6 +64,8 @@ def build(r):
             a = np.array(items, dtype="datetime64[ns]")
         else:
             a = np.array(items)
+        if r.get("idtype"):
+            a = a.astype(r["idtype"])
         if c == "ndarray":
             return a
         if c == "dataarray":
